@@ -100,10 +100,30 @@ def lid(s):
     return s.replace(".", "_")
 
 
+def pred_text(P, tp, marker):
+    """the marker predicate of one level, in the spelling the item uses (they all mean: this level contributed)"""
+    pf = P.get("pred_form")
+    if pf == "hrtb":
+        return "for<'a> &'a %s: %s" % (tp, marker)
+    if pf == "paren":
+        return "(%s): %s" % (tp, marker)
+    if pf == "tuple":
+        return "(%s, u8): %s" % (tp, marker)
+    if pf == "path":
+        return "%s: self::%s" % (tp, marker)
+    if pf == "bound_args":
+        return "::core::option::Option<%s>: %s<'static, u8>" % (tp, marker)
+    return "%s: %s" % (tp, marker)
+
+
 def bound_src(P, b, level_id):
     """`bound(...)` text for BoundOpt b written at level level_id, or None when absent"""
     tp = first_type_param(P) or "u8"
-    pred = "%s: M_%s" % (tp, lid(level_id))
+    pred = pred_text(P, tp, "M_%s" % lid(level_id))
+    if P.get("pred_form") == "trailing_comma" and b in ("P", "T", "ddP", "ddT"):
+        # bound(P,) / bound(.., P,): a trailing comma inside the list
+        ty0 = ("Wc_%s" % lid(level_id)) if P.get("conc_ty") else "W_%s<%s>" % (lid(level_id), tp)
+        return {"P": "bound(%s,)" % pred, "T": "bound(%s,)" % ty0, "ddP": "bound(.., %s,)" % pred, "ddT": "bound(.., %s,)" % ty0}[b]
     # (conc_ty: the explicit Type entries name no generic parameter at all - they count all the same)
     ty = ("Wc_%s" % lid(level_id)) if P.get("conc_ty") else "W_%s<%s>" % (lid(level_id), tp)
     return {"absent": None, "empty": "bound()", "P": "bound(%s)" % pred, "dd": "bound(..)", "Pdd": "bound(%s, ..)" % pred,
@@ -328,7 +348,7 @@ def tag_texts(P, form):
     def scope(ls, sid):
         ids = [sid + ".h." + a for a in HELPERS] + [sid + ".this", sid + ".common"]
         for x in ids:
-            out.append(("pred@" + x, "%s: M_%s" % (tp, lid(x))))
+            out.append(("pred@" + x, pred_text(P, tp, "M_%s" % lid(x))))
             out.append(("ty@" + x, form_atom(("Wc_%s" % lid(x)) if P.get("conc_ty") else "W_%s<%s>" % (lid(x), tp), t, form)))
     scope(P["tb"], "t")
     for vi, v in enumerate(P["variants"]):
